@@ -34,7 +34,7 @@ On the unchanged tree 229 tests pass and exactly one (tests/test_stream.py::Stre
 THE PROPERTY ({pid}: {p.get('title','')}):
 {text}
 
-YOUR TASK: produce TWO INDEPENDENT changes, A and B (each applied to the UNCHANGED tree on its own, never combined). Each is ONE realistic change to the library source (src/pyubx2/*.py only; something a maintainer could plausibly commit as a refactor, optimisation, feature or bug-fix attempt - not sabotage-looking, no dead giveaway comments) that BREAKS this property while the code still imports and the existing test suite result is unchanged (229 pass, the same 1 failure). Each change must need something SPECIFIC to manifest - NOT something that ordinary use or the most obvious smoke test of the property would expose at once. The checker under evaluation is thorough: it already sweeps every message definition with many field fillings (zeros, ones, extremes, small values, IEEE edge values), every option combination, file / BytesIO / mmap / pipe / plain and TLS-like socket streams with many segmentations, growing and truncated streams, very long frames and runs of thousands of frames (also filtered-out ones), hostile call histories, a second reader used in between, callers that modify returned lists in place, payloads given as bytes / bytearray / memoryview, text given as non-UTF-8 bytes, thread interleavings at first use and pre-emption after every source line, steered checksum values and crc32-colliding frames, warnings promoted to errors, other decimal contexts, python -O, NTRIP status lines. So look for something ELSE, for example: a violation tied to a specific message definition or attribute NAME, a numeric or length relation BETWEEN fields or between consecutive frames, a specific ORDER of attributes / keys / frames, dependence on locale, time zone, current date, environment variables, recursion limit, hash seed or platform, a boundary of a count or index, a rarely used public entry point or argument form (positional vs keyword, subclasses of the documented types, objects with unusual but legal dunder behaviour), interaction between two features, state kept across calls on an object or module, resource exhaustion or leaks visible only after many calls, behaviour after an exception was caught, copy / pickle / deepcopy / comparison / hashing of results, and so on. A and B must differ from each other in code location AND in the kind of mechanism. Read the relevant source carefully first.
+YOUR TASK: produce TWO INDEPENDENT changes, A and B (each applied to the UNCHANGED tree on its own, never combined). Each is ONE realistic change to the library source (src/pyubx2/*.py only; something a maintainer could plausibly commit as a refactor, optimisation, feature or bug-fix attempt - not sabotage-looking, no dead giveaway comments) that BREAKS this property while the code still imports and the existing test suite result is unchanged (229 pass, the same 1 failure). Each change must need something SPECIFIC to manifest - NOT something that ordinary use or the most obvious smoke test of the property would expose at once. The checker under evaluation is thorough: it already sweeps every message definition with many field fillings (zeros, ones, extremes, small values, IEEE edge values), every option combination, file / BytesIO / mmap / pipe / plain and TLS-like socket streams with many segmentations, growing and truncated streams, very long frames and runs of thousands of frames (also filtered-out ones), hostile call histories, a second reader used in between, callers that modify returned lists in place, payloads given as bytes / bytearray / memoryview, text given as non-UTF-8 bytes, thread interleavings at first use and pre-emption after every source line, steered checksum values and crc32-colliding frames, warnings promoted to errors, other decimal contexts, python -O / -OO / -bb, NTRIP status lines, datagram and timed sockets, one-byte recv() segmentation, more than a MiB through one reader, options given positionally / as IntEnum / as str and bytes subclasses, results seen through pickle / deepcopy / copy, errors raised and caught with the same iterator resumed, logger-like handler objects, message types registered at run time, the other modes of the same message tried first. So look for something ELSE, for example: a violation tied to a specific message definition or attribute NAME, a numeric or length relation BETWEEN fields or between consecutive frames, a specific ORDER of attributes / keys / frames, dependence on locale, time zone, current date, environment variables, recursion limit, hash seed or platform, a boundary of a count or index, a rarely used public entry point or argument form (positional vs keyword, subclasses of the documented types, objects with unusual but legal dunder behaviour), interaction between two features, state kept across calls on an object or module, resource exhaustion or leaks visible only after many calls, behaviour after an exception was caught, copy / pickle / deepcopy / comparison / hashing of results, and so on. A and B must differ from each other in code location AND in the kind of mechanism. Read the relevant source carefully first.
 
 Both must ALSO be different in code location and mechanism from these changes, which were already made in earlier rounds for this property:
 {chr(10).join(prev)}
